@@ -56,14 +56,31 @@ func checkC03(c *Case, st *Stats) string {
 	}
 	Journal(c.Check, c.Path, docText, flagString(c))
 	rec := &Recorder{}
-	f, err := parseWith(c.Path, c.Funcs, c.Accessor, rec)
-	if err != nil || f == nil {
-		st.Class("parse:rejected")
-		return ""
+	var got []interface{}
+	var rerr error
+	var doc interface{}
+	if api := pickAPI(c.Path, c.Accessor); api.retrieve {
+		// the one-call form: Retrieve parses and evaluates (user functions run inside it)
+		doc = c.Document()
+		cfg := BuildConfig(rec, c.Funcs, c.Accessor)
+		noteParseVia(c.Path, c.Funcs, c.Accessor, true)
+		got, rerr = jsonpath.Retrieve(c.Path, doc, cfg)
+		if rerr != nil && DescribeErr(rerr).IsSyntax() {
+			st.Class("parse:rejected")
+			return ""
+		}
+		st.Class("api:Retrieve")
+	} else {
+		f, err := parseWith(c.Path, c.Funcs, c.Accessor, rec)
+		if err != nil || f == nil {
+			st.Class("parse:rejected")
+			return ""
+		}
+		doc = c.Document()
+		got, rerr = f(doc)
+		st.Class("api:Parse")
 	}
 	st.Class("parse:accepted")
-	doc := c.Document()
-	got, rerr := f(doc)
 	st.Eval(1)
 	if msg := runtimeOutcome(got, rerr); msg != "" {
 		return msg
